@@ -45,25 +45,29 @@ IntsOK(r) == /\ SameInts(r.t, r.mn, r.I.mn) /\ SameInts(r.t, r.mx, r.I.mx)
 DT(t) == <<D!DInt(t[1]), D!DInt(t[2])>>
 DV3(v) == <<D!DInt(v[1]), D!DInt(v[2]), D!DInt(v[3])>>
 
-RayOKInt(r) ==
+RayCtxInt(r) ==
     LET bi == [mn |-> r.I.mn, mx |-> r.I.mx]
-        bx == [mn |-> DV3(r.I.mn), mx |-> DV3(r.I.mx)]
-        pos == DV3(r.I.pos)
-        dir == DV3(r.I.dir)
         hit == RI!Hit(bi, r.I.pos, r.I.dir)
         lhit == RI!LineHit(bi, r.I.pos, r.I.dir)
-    IN  /\ IntsOK(r)
-        /\ (r.hit = 1) = hit
-        /\ (r.hit3 = 1) = hit
-        /\ (r.ee = 1) = lhit
-        /\ (hit /\ r.hit3 = 1 =>
+        none == <<0, 1>>
+    IN  [hit |-> hit, lhit |-> lhit,
+         fc |-> IF hit THEN DT(RI!FirstContact(bi, r.I.pos, r.I.dir)) ELSE DT(none),
+         en |-> IF lhit THEN DT(RI!Entry(bi, r.I.pos, r.I.dir)) ELSE DT(none),
+         ex |-> IF lhit THEN DT(RI!Exit(bi, r.I.pos, r.I.dir)) ELSE DT(none),
+         inside |-> RI!OriginInside(bi, r.I.pos, r.I.dir),
+         bx |-> [mn |-> DV3(r.I.mn), mx |-> DV3(r.I.mx)], pos |-> DV3(r.I.pos), dir |-> DV3(r.I.dir)]
+RayOKInt(r) == \E c \in {RayCtxInt(r)} :
+        /\ IntsOK(r)
+        /\ (r.hit = 1) = c.hit
+        /\ (r.hit3 = 1) = c.hit
+        /\ (r.ee = 1) = c.lhit
+        /\ (c.hit /\ r.hit3 = 1 =>
               /\ FiniteAll(r.t, r.ip)
-              /\ PointOK(r.t, bx, pos, dir, DT(RI!FirstContact(bi, r.I.pos, r.I.dir)), Vals(r.t, r.ip),
-                         RI!OriginInside(bi, r.I.pos, r.I.dir)))
-        /\ (lhit /\ r.ee = 1 =>
+              /\ PointOK(r.t, c.bx, c.pos, c.dir, c.fc, Vals(r.t, r.ip), c.inside))
+        /\ (c.lhit /\ r.ee = 1 =>
               /\ FiniteAll(r.t, r.entry) /\ FiniteAll(r.t, r.exit)
-              /\ PointOK(r.t, bx, pos, dir, DT(RI!Entry(bi, r.I.pos, r.I.dir)), Vals(r.t, r.entry), FALSE)
-              /\ PointOK(r.t, bx, pos, dir, DT(RI!Exit(bi, r.I.pos, r.I.dir)), Vals(r.t, r.exit), FALSE))
+              /\ PointOK(r.t, c.bx, c.pos, c.dir, c.en, Vals(r.t, r.entry), FALSE)
+              /\ PointOK(r.t, c.bx, c.pos, c.dir, c.ex, Vals(r.t, r.exit), FALSE))
 
 \* everything derived from one float record, evaluated once (TLC re-evaluates LET definitions at every reference)
 RayCtx(r) ==
